@@ -53,7 +53,7 @@ def spec_doc(name):
     return doc
 
 
-SWEEP_CODES = [404, 499, 422, 520, 409, 401, 403, 429, 500, 503, 400, 502, 504, 410, 415, 451]  # 499 / 520: error codes without a registered name
+SWEEP_CODES = [404, 499, 422, 520, 409, 418, 401, 403, 429, 500, 503, 400, 502, 504, 410, 415, 451]  # 418: the only reason phrase with an apostrophe  # 499 / 520: error codes without a registered name
 
 
 def cases(tier, seed):
@@ -156,7 +156,8 @@ def run_case(case):
     lay = LAYOUTS[case["layout"]]
     tier = case["tier"]
     clients = lay["clients"][:2] if tier == "quick" else lay["clients"]
-    specs = ["s404", "s422+500", "snone"] if tier == "quick" else list(SPECS)
+    # s404 is a subset of s404+500 (a client whose codes are all covered by another's), s422+500 is disjoint from s404
+    specs = ["s404", "s422+500", "s404+500"] if tier == "quick" else list(SPECS)
     if tier == "quick" and case["layout"] in ("pk.shared.core", "pk.a.b.core", "acme_core", "first-client-core"):
         specs = ["s404", "s422+500"]
     max_depth = None if tier == "quick" else 4
